@@ -47,6 +47,8 @@ type rewriter struct {
 	tmpN     int
 	usedSim  bool
 	simrtPkg string
+	// atomicSeen: the calls of sync/atomic methods that got a scheduling point of their own
+	atomicSeen map[*ast.CallExpr]bool
 }
 
 func (r *rewriter) errorf(pos token.Pos, format string, a ...interface{}) {
@@ -145,6 +147,14 @@ var forbidden = map[string]bool{
 	"crypto/rand.Int": true, "crypto/rand.Prime": true,
 	"runtime.Gosched": true, "runtime.GC": true,
 	"os/signal.Notify": true,
+	// reads the real clock
+	"time.Until": true,
+	// dialling other than through net.Dial
+	"net.Dialer": true, "crypto/tls.Dial": true, "crypto/tls.DialWithDialer": true,
+	// ends a goroutine without returning the baton
+	"runtime.Goexit": true,
+	// starts goroutines of its own, in a package that is not rewritten
+	"github.com/hashicorp/go-multierror.Group": true,
 }
 
 // mutexMethod recognises X.Lock() etc. on sync.Mutex / sync.RWMutex (also
@@ -384,6 +394,12 @@ func (r *rewriter) recvWaitFor(exprs ...ast.Node) []ast.Stmt {
 			continue
 		}
 		for _, u := range recvIn(e) {
+			if !directRecv(e, u) {
+				// the wait would be placed in front of the whole statement: a receive that is evaluated
+				// conditionally (a && <-ch) or after other calls of the same expression would wait at the wrong time
+				r.errorf(u.Pos(), "receive inside a larger expression is not modelled")
+				continue
+			}
 			if !simpleExpr(u.X) {
 				r.errorf(u.Pos(), "receive from a channel expression with possible side effects is not modelled")
 				continue
@@ -400,6 +416,46 @@ func (r *rewriter) recvWaitFor(exprs ...ast.Node) []ast.Stmt {
 		r.errorf(pre[0].Pos(), "more than one receive in one statement is not modelled")
 	}
 	return pre
+}
+
+// directRecv: u is, parentheses aside, the whole expression n - or the whole right-hand side / expression /
+// initial value of the simple statement or declaration n.
+func directRecv(n ast.Node, u *ast.UnaryExpr) bool {
+	is := func(e ast.Expr) bool {
+		for {
+			p, ok := e.(*ast.ParenExpr)
+			if !ok {
+				break
+			}
+			e = p.X
+		}
+		return e == ast.Expr(u)
+	}
+	switch x := n.(type) {
+	case ast.Expr:
+		return is(x)
+	case *ast.ExprStmt:
+		return is(x.X)
+	case *ast.AssignStmt:
+		for _, e := range x.Rhs {
+			if is(e) {
+				return true
+			}
+		}
+	case *ast.DeclStmt:
+		return directRecv(x.Decl, u)
+	case *ast.GenDecl:
+		for _, sp := range x.Specs {
+			if vs, ok := sp.(*ast.ValueSpec); ok {
+				for _, e := range vs.Values {
+					if is(e) {
+						return true
+					}
+				}
+			}
+		}
+	}
+	return false
 }
 
 // rewriteStmt returns the statements replacing st; calls of methods of sync/atomic types inside the statement's own
@@ -423,12 +479,41 @@ func (r *rewriter) rewriteStmt(st ast.Stmt) []ast.Stmt {
 		heads = []ast.Node{s.X}
 	}
 	var pre []ast.Stmt
+	total := 0
+	for _, h := range heads {
+		if h != nil && !isNilNode(h) {
+			total += len(r.atomicCallsIn(h))
+		}
+	}
 	for _, h := range heads {
 		if h == nil || isNilNode(h) {
 			continue
 		}
 		calls := r.atomicCallsIn(h)
-		if len(calls) >= 2 && r.canHoistAtomics(st, h, calls) {
+		if len(calls) == 0 {
+			continue
+		}
+		switch s := st.(type) {
+		case *ast.DeferStmt:
+			for _, c := range calls {
+				if c == s.Call {
+					r.errorf(c.Pos(), "deferred call of a sync/atomic method is not modelled (its scheduling point would be at the defer statement)")
+				}
+			}
+		case *ast.GoStmt:
+			for _, c := range calls {
+				if c == s.Call {
+					r.errorf(c.Pos(), "go statement calling a sync/atomic method is not modelled")
+				}
+			}
+		}
+		if total >= 2 {
+			if len(calls) != total || !r.canHoistAtomics(st, h, calls) {
+				// the operations would all run in one step behind their scheduling points: an interleaving of
+				// another goroutine between them could not be produced
+				r.errorf(calls[0].Pos(), "several sync/atomic method calls in one statement, in a form that cannot be split into steps, are not modelled")
+				continue
+			}
 			// Several atomic operations in one statement (x.CompareAndSwap(old, y.Load())) are separate steps for
 			// other goroutines: all but the one evaluated last are moved into temporaries, in evaluation order,
 			// each behind its own scheduling point.
@@ -449,16 +534,80 @@ func (r *rewriter) rewriteStmt(st ast.Stmt) []ast.Stmt {
 			for _, c := range calls[:len(calls)-1] {
 				pre = append(pre, &ast.ExprStmt{X: r.call("AtomicPoint", r.newSite(c.Pos(), "atomic-method", false))})
 				pre = append(pre, &ast.AssignStmt{Lhs: []ast.Expr{repl[c]}, Tok: token.DEFINE, Rhs: []ast.Expr{c}})
+				r.atomicSeen[c] = true
 			}
 			last := calls[len(calls)-1]
 			pre = append(pre, &ast.ExprStmt{X: r.call("AtomicPoint", r.newSite(last.Pos(), "atomic-method", false))})
+			r.atomicSeen[last] = true
 			continue
 		}
-		for _, c := range calls {
-			pre = append(pre, &ast.ExprStmt{X: r.call("AtomicPoint", r.newSite(c.Pos(), "atomic-method", false))})
+		c := calls[0]
+		if !r.atomicIsFirstStep(h, c) {
+			r.errorf(c.Pos(), "sync/atomic method call evaluated after another call or receive of the same statement is not modelled (its scheduling point is in front of the statement)")
+			continue
 		}
+		pre = append(pre, &ast.ExprStmt{X: r.call("AtomicPoint", r.newSite(c.Pos(), "atomic-method", false))})
+		r.atomicSeen[c] = true
 	}
 	return append(pre, r.rewriteStmt1(st)...)
+}
+
+// atomicIsFirstStep: nothing that can be a step of its own (another call, a receive) or that makes the evaluation
+// conditional (&&, ||) is evaluated in head h before the atomic call c: calls that take c's result as an argument,
+// conversions and len/cap aside.
+func (r *rewriter) atomicIsFirstStep(h ast.Node, c *ast.CallExpr) bool {
+	ok := true
+	ast.Inspect(h, func(n ast.Node) bool {
+		if !ok || n == nil {
+			return false
+		}
+		switch x := n.(type) {
+		case *ast.FuncLit:
+			return false
+		case *ast.UnaryExpr:
+			if x.Op == token.ARROW && x.Pos() < c.Pos() {
+				ok = false
+			}
+		case *ast.BinaryExpr:
+			if (x.Op == token.LAND || x.Op == token.LOR) && x.Y.Pos() <= c.Pos() && c.End() <= x.Y.End() {
+				ok = false
+			}
+		case *ast.CallExpr:
+			if x == c {
+				// the receiver and the arguments of the atomic call itself
+				for _, a := range append([]ast.Expr{x.Fun}, x.Args...) {
+					ast.Inspect(a, func(m ast.Node) bool {
+						if ce, isCall := m.(*ast.CallExpr); isCall && !r.harmlessCall(ce) {
+							ok = false
+						}
+						return ok
+					})
+				}
+				return false
+			}
+			if x.Pos() <= c.Pos() && c.End() <= x.End() {
+				return true // encloses c: evaluated after it
+			}
+			if x.End() <= c.Pos() && !r.harmlessCall(x) {
+				ok = false
+			}
+		}
+		return ok
+	})
+	return ok
+}
+
+// harmlessCall: a conversion or len/cap.
+func (r *rewriter) harmlessCall(x *ast.CallExpr) bool {
+	if tv, found := r.info.Types[x.Fun]; found && tv.IsType() {
+		return true
+	}
+	if id, isId := x.Fun.(*ast.Ident); isId {
+		if _, isBuiltin := r.info.Uses[id].(*types.Builtin); isBuiltin && (id.Name == "len" || id.Name == "cap") {
+			return true
+		}
+	}
+	return false
 }
 
 // canHoistAtomics: moving the atomic calls of head h out of statement st keeps the meaning if nothing else in h has
@@ -508,6 +657,11 @@ func (r *rewriter) canHoistAtomics(st ast.Stmt, h ast.Node, calls []*ast.CallExp
 		return ok
 	})
 	return ok
+}
+
+func isBuiltinIdent(info *types.Info, id *ast.Ident) bool {
+	_, isBuiltin := info.Uses[id].(*types.Builtin)
+	return isBuiltin
 }
 
 func isNilNode(n ast.Node) bool {
@@ -566,6 +720,15 @@ func (r *rewriter) rewriteStmt1(st ast.Stmt) []ast.Stmt {
 			fl.Body.List = r.rewriteStmtList(fl.Body.List)
 		} else if !simpleExpr(call.Fun) {
 			r.errorf(s.Pos(), "go statement with a complex function expression is not modelled")
+		} else if id, isId := call.Fun.(*ast.Ident); isId && isBuiltinIdent(r.info, id) {
+			r.errorf(s.Pos(), "go statement calling a builtin is not modelled")
+		} else if _, _, isQual := r.qualified(call.Fun); !isQual {
+			// The function value - with it the receiver of a method call - is evaluated by the go statement, not by
+			// the new goroutine: `go w.run()` in a loop must not see a later w. A method value does exactly that.
+			call.Fun = r.expr(call.Fun)
+			fv := r.tmp("f")
+			pre = append([]ast.Stmt{&ast.AssignStmt{Lhs: []ast.Expr{fv}, Tok: token.DEFINE, Rhs: []ast.Expr{call.Fun}}}, pre...)
+			call.Fun = fv
 		}
 		goCall := r.call("Go", r.newSite(s.Pos(), "go", false),
 			&ast.FuncLit{Type: &ast.FuncType{Params: &ast.FieldList{}}, Body: &ast.BlockStmt{List: []ast.Stmt{&ast.ExprStmt{X: call}}}})
@@ -731,7 +894,27 @@ func (r *rewriter) rewriteStmt1(st ast.Stmt) []ast.Stmt {
 		if len(recvIn(s.Call)) > 0 {
 			r.errorf(s.Pos(), "receive in defer statement is not modelled")
 		}
-		s.Call = r.expr(s.Call).(*ast.CallExpr)
+		if id, ok := s.Call.Fun.(*ast.Ident); ok && id.Name == "close" && len(s.Call.Args) == 1 && isBuiltinIdent(r.info, id) {
+			// defer close(ch): the channel is evaluated now, the close - with its scheduling point - runs at exit
+			r.exprs(s.Call.Args[0])
+			if !simpleExpr(s.Call.Args[0]) {
+				r.errorf(s.Pos(), "close of a channel expression with possible side effects is not modelled")
+			}
+			tc := r.tmp("c")
+			bind := &ast.AssignStmt{Lhs: []ast.Expr{tc}, Tok: token.DEFINE, Rhs: []ast.Expr{s.Call.Args[0]}}
+			body := []ast.Stmt{
+				&ast.ExprStmt{X: r.call("PreClose", r.newSite(s.Pos(), "close", false), tc)},
+				&ast.ExprStmt{X: &ast.CallExpr{Fun: ast.NewIdent("close"), Args: []ast.Expr{tc}}},
+			}
+			s.Call = &ast.CallExpr{Fun: &ast.FuncLit{Type: &ast.FuncType{Params: &ast.FieldList{}}, Body: &ast.BlockStmt{List: body}}}
+			return []ast.Stmt{bind, s}
+		}
+		ne, isCall := r.expr(s.Call).(*ast.CallExpr)
+		if !isCall {
+			r.errorf(s.Pos(), "deferred call was rewritten into something that is not a call")
+			return []ast.Stmt{s}
+		}
+		s.Call = ne
 		return []ast.Stmt{s}
 	case *ast.IncDecStmt:
 		s.X = r.expr(s.X)
@@ -793,6 +976,19 @@ func (r *rewriter) exprTop(e ast.Expr) ast.Expr {
 				args = append(args, x.Args...)
 			}
 			return r.call(fn, args...)
+		}
+		if sel, isSel := x.Fun.(*ast.SelectorExpr); isSel && len(x.Args) == 0 {
+			switch sel.Sel.Name {
+			case "Lock", "Unlock", "RLock", "RUnlock":
+				if s := r.info.Selections[sel]; s != nil && s.Kind() == types.MethodVal {
+					if m, isFunc := s.Obj().(*types.Func); isFunc && (m.Pkg() == nil || m.Pkg().Path() != "sync") {
+						if _, isIface := s.Recv().Underlying().(*types.Interface); isIface {
+							// the dynamic value may be a sync mutex, which would then be used behind the simulator's back
+							r.errorf(x.Pos(), "%s through an interface that is not sync.Locker is not modelled", sel.Sel.Name)
+						}
+					}
+				}
+			}
 		}
 		if pkg, name, ok := r.qualified(x.Fun); ok && pkg == "sync/atomic" {
 			for i := range x.Args {
@@ -984,9 +1180,81 @@ func (r *rewriter) rewriteMapRange(s *ast.RangeStmt) ast.Stmt {
 	return &ast.BlockStmt{List: []ast.Stmt{pre, loop}}
 }
 
+// verify is the net under the rewriter: after a file has been rewritten nothing of the families the simulator
+// must control may be left in its raw form - whatever position it stood in. Channel operations the rewriter
+// produced work on its own temporaries (_simc...), every other raw one was missed.
+func (r *rewriter) verify(f *ast.File) {
+	isTmp := func(e ast.Expr) bool {
+		id, ok := e.(*ast.Ident)
+		return ok && strings.HasPrefix(id.Name, "_simc")
+	}
+	astutil.Apply(f, func(c *astutil.Cursor) bool {
+		switch x := c.Node().(type) {
+		case *ast.GoStmt:
+			r.errorf(x.Pos(), "go statement left in place")
+		case *ast.SelectStmt:
+			r.errorf(x.Pos(), "select statement left in place")
+		case *ast.SendStmt:
+			if !isTmp(x.Chan) {
+				r.errorf(x.Pos(), "channel send in a position the rewriter does not model")
+			}
+		case *ast.UnaryExpr:
+			if x.Op == token.ARROW && !isTmp(x.X) {
+				r.errorf(x.Pos(), "channel receive in a position the rewriter does not model")
+			}
+		case *ast.RangeStmt:
+			if isChan(r.info.TypeOf(x.X)) {
+				r.errorf(x.Pos(), "range over a channel left in place")
+			}
+		case *ast.CallExpr:
+			if id, ok := x.Fun.(*ast.Ident); ok && id.Name == "close" && len(x.Args) == 1 {
+				if obj, known := r.info.Uses[id]; !known || isBuiltinObj(obj) {
+					if !isTmp(x.Args[0]) {
+						r.errorf(x.Pos(), "close of a channel in a position the rewriter does not model")
+					}
+				}
+			}
+		case *ast.SelectorExpr:
+			if sel := r.info.Selections[x]; sel != nil {
+				if m, ok := sel.Obj().(*types.Func); ok && m.Pkg() != nil {
+					switch m.Pkg().Path() {
+					case "sync":
+						if !isPoolMethod(m) {
+							r.errorf(x.Pos(), "use of sync method %s in a position the rewriter does not model", m.Name())
+						}
+					case "sync/atomic":
+						call, isCall := c.Parent().(*ast.CallExpr)
+						if !isCall || call.Fun != ast.Expr(x) || !r.atomicSeen[call] {
+							r.errorf(x.Pos(), "use of sync/atomic method %s without a scheduling point of its own (a method value, or a call in a case list, type switch, select case or similar position)", m.Name())
+						}
+					}
+				}
+			}
+			if pkg, name, ok := r.qualified(x); ok {
+				key := pkg + "." + name
+				_, mapped := qualifiedMap[key]
+				if mapped || forbidden[key] || (pkg == "sync/atomic" && !atomicTypes[name]) || pkg == "math/rand" {
+					r.errorf(x.Pos(), "%s in a position the rewriter does not model", key)
+				}
+			}
+		}
+		return true
+	}, nil)
+}
+
+func isBuiltinObj(o types.Object) bool {
+	_, ok := o.(*types.Builtin)
+	return ok
+}
+
 func (r *rewriter) file(f *ast.File) {
 	r.curFile = f
 	r.usedSim = false
+	for _, is := range f.Imports {
+		if is.Name != nil && is.Name.Name == "." {
+			r.errorf(is.Pos(), "dot import (names of the imported package cannot be told apart from local ones)")
+		}
+	}
 	// Comments inside function bodies are dropped: synthesised nodes have no
 	// positions and the printer would scatter them.
 	var keep []*ast.CommentGroup
@@ -1041,6 +1309,7 @@ func main() {
 	simrtPath := flag.String("simrt", "github.com/SAP/go-dblib/zz_verif/simrt", "import path of simrt")
 	sitesOut := flag.String("sites", "sites.json", "site table output")
 	coldList := flag.String("cold", "", "comma separated type names (pkg.Type) whose own mutex is a cold site")
+	module := flag.String("module", "github.com/SAP/go-dblib", "module path: its packages imported by the rewritten ones are scanned")
 	flag.Parse()
 
 	root, _ := filepath.Abs(*dir)
@@ -1074,7 +1343,7 @@ func main() {
 	var all []site
 	var errs []string
 	for _, p := range pkgs {
-		r := &rewriter{fset: p.Fset, pkg: p, info: p.TypesInfo, root: root, cold: cold, simrtPkg: *simrtPath}
+		r := &rewriter{fset: p.Fset, pkg: p, info: p.TypesInfo, root: root, cold: cold, simrtPkg: *simrtPath, atomicSeen: map[*ast.CallExpr]bool{}}
 		r.sites = all
 		for i, f := range p.Syntax {
 			name := p.CompiledGoFiles[i]
@@ -1082,6 +1351,7 @@ func main() {
 				continue
 			}
 			r.file(f)
+			r.verify(f)
 			if !r.usedSim {
 				continue
 			}
@@ -1132,6 +1402,62 @@ func main() {
 		all = r.sites
 		errs = append(errs, r.errs...)
 	}
+	// Packages of the module that the rewritten ones import but that are not rewritten themselves (value codecs,
+	// DSN parsing): they must be free of everything the simulator has to control - a goroutine, lock, channel or
+	// clock read in one of them would run behind its back. They are put through the same rewriter without writing
+	// anything: a single site or complaint is an error.
+	rewritten := map[string]bool{}
+	for _, p := range pkgs {
+		rewritten[p.PkgPath] = true
+	}
+	seen := map[string]bool{}
+	var deps []*packages.Package
+	var walk func(p *packages.Package)
+	walk = func(p *packages.Package) {
+		if seen[p.PkgPath] {
+			return
+		}
+		seen[p.PkgPath] = true
+		if !rewritten[p.PkgPath] && (p.PkgPath == *module || strings.HasPrefix(p.PkgPath, *module+"/")) && !strings.HasPrefix(p.PkgPath, *module+"/zz_verif") {
+			deps = append(deps, p)
+		}
+		var keys []string
+		for k := range p.Imports {
+			keys = append(keys, k)
+		}
+		sort.Strings(keys)
+		for _, k := range keys {
+			walk(p.Imports[k])
+		}
+	}
+	for _, p := range pkgs {
+		walk(p)
+	}
+	scanned := 0
+	for _, p := range deps {
+		if len(p.Syntax) == 0 || p.TypesInfo == nil {
+			errs = append(errs, fmt.Sprintf("%s: imported by the rewritten packages, but its source could not be loaded for scanning", p.PkgPath))
+			continue
+		}
+		scanned++
+		r := &rewriter{fset: p.Fset, pkg: p, info: p.TypesInfo, root: root, cold: cold, simrtPkg: *simrtPath, atomicSeen: map[*ast.CallExpr]bool{}}
+		for i, f := range p.Syntax {
+			if i < len(p.CompiledGoFiles) && strings.HasSuffix(p.CompiledGoFiles[i], "_test.go") {
+				continue
+			}
+			r.file(f)
+			r.verify(f)
+		}
+		for _, st := range r.sites {
+			if st.Op == "maprange" {
+				// iteration order only: it cannot hide a schedule, and if it reached an outcome the determinism
+				// self-test would show it
+				continue
+			}
+			errs = append(errs, fmt.Sprintf("%s: %s in package %s, which is not rewritten", st.Pos, st.Op, p.PkgPath))
+		}
+		errs = append(errs, r.errs...)
+	}
 	if len(errs) > 0 {
 		for _, e := range errs {
 			fmt.Fprintf(os.Stderr, "simrewrite: unsupported: %s\n", e)
@@ -1143,5 +1469,5 @@ func main() {
 		fmt.Fprintf(os.Stderr, "simrewrite: %v\n", err)
 		os.Exit(2)
 	}
-	fmt.Printf("simrewrite: %d sites in %d packages\n", len(all), len(pkgs))
+	fmt.Printf("simrewrite: %d sites in %d packages, %d imported packages of the module scanned\n", len(all), len(pkgs), scanned)
 }
